@@ -88,7 +88,7 @@ struct X {
   // the broker already has the bytes of the write in progress (and may answer) while the client has not yet seen its write complete
   void ev_early_delivery() {
     auto* s = vk::pending_write(); if (!s || s->delivered_early || nearly >= 1) vk_assume(0);
-    nearly++; int before = w.npk; w.deliver_early(s); early_mode = true; on_new_packets(before); early_mode = false; vk_reach("early-delivery");
+    nearly++; int before = w.npk; early_from = before; w.deliver_early(s); early_mode = true; on_new_packets(before); early_mode = false; vk_reach("early-delivery");
   }
   // what the broker owes next to the oldest exchange it has seen on this connection: type and pid, or 0
   uint8_t owed(uint16_t& pid) {
@@ -112,9 +112,19 @@ struct X {
     if (chunking == 2 && w.out_avail() > 1) { w.feed(w.out_avail() - 1); vk::drain(); }
     // an acknowledgement that overtakes the completion of the client's own write is parked by the client (fast reply); it counts
     // as consumed only once the write completion has been processed on the same connection
-    bool overtaking = vk::pending_write() && vk::pending_write()->delivered_early;
+    // (only an answer to a packet of that very write overtakes it; answers to packets of earlier, completed writes are consumed at once)
+    bool pend_early = vk::pending_write() && vk::pending_write()->delivered_early && early_from >= 0;
     w.feed_all(); vk::drain();
-    for (int a = 0; a < nacks; a++) if (acks[a].epoch == w.epoch && !acks[a].parked) { if (overtaking && !acks[a].consumed) acks[a].parked = true; else acks[a].consumed = true; }
+    for (int a = 0; a < nacks; a++) if (acks[a].epoch == w.epoch && !acks[a].parked) {
+      bool overtaking = false;
+      if (pend_early && !acks[a].consumed)
+        for (int j = early_from; j < w.npk; j++) {
+          const pkt_rec& r = w.pk[j]; if (r.epoch != w.epoch || r.pid != acks[a].pid) continue;
+          if (r.type == ref::PUBLISH && (acks[a].type == ref::PUBACK || acks[a].type == ref::PUBREC)) overtaking = true;
+          if (r.type == ref::PUBREL && acks[a].type == ref::PUBCOMP) overtaking = true;
+        }
+      if (overtaking) acks[a].parked = true; else acks[a].consumed = true;
+    }
   }
   void ev_correct_ack() {
     uint16_t pid = 0; uint8_t t = owed(pid);
@@ -170,7 +180,7 @@ struct X {
     vk_reach("reconnected");
   }
   // ---- wire monitors (C03: retransmissions)
-  bool early_mode = false; bool early_req[VK_REQS] = {}; bool lost_tx[VK_REQS] = {};
+  bool early_mode = false; bool early_req[VK_REQS] = {}; bool lost_tx[VK_REQS] = {}; int early_from = -1;   // first packet of the write the broker obtained early
   void on_new_packets(int from) {
     for (int i = from; i < w.npk; i++) {
       const pkt_rec& r = w.pk[i]; if (r.type != ref::PUBLISH || r.qos == 0) continue;
